@@ -1657,6 +1657,8 @@ func (ex *Exec) equal(a, b Value) *Term {
 		if x == nil || y == nil {
 			return ex.C.Bool(x == nil && y == nil)
 		}
+	case ReflType:
+		return ex.C.Bool(types.Identical(x.T, b.(ReflType).T))
 	}
 	panic(engineErr("equal: unsupported comparison %T vs %T", a, b))
 }
